@@ -14,6 +14,8 @@ vp_arr_init(vp_arr_t *a, int order) {
   a->status = 0;
   a->live = 0;
   a->created = 0;
+  a->kcap = VP_ARR_MAXK;
+  a->vcap = VP_ARR_MAXV;
 }
 
 void
@@ -24,6 +26,11 @@ vp_arr_add(vp_arr_t *a, const uint8_t *k, size_t kn,
 
   VP_ASSERT(e < VP_ARR_MAXN && kn <= VP_ARR_MAXK && vn <= VP_ARR_MAXV,
             "harness: vp_arr capacity");
+
+  VP_ASSERT(kn <= a->kcap && vn <= a->vcap, "harness: vp_arr kcap/vcap");
+
+  a->key[e] = vp_input(a->kcap);
+  a->val[e] = vp_input(a->vcap);
 
   for (i = 0; i < kn; i++)
     a->key[e][i] = k[i];
@@ -195,17 +202,18 @@ vp_arr_key(const void *p) {
 
   VP_ASSERT(vp_arr_valid(p), "child key() called on an invalid iterator (REQUIRES: valid)");
 
-  /* if-chain over concrete rows: CBMC 6.11 mis-models the decay of a 2-D
-     array row at a symbolic index (key[pos]) */
+  /* if-chain over concrete entries (cheap for the symbolic executor; note
+     that CBMC 6.11 also mis-models the decay of a 2-D array row at a
+     symbolic index, which an earlier in-struct layout ran into) */
   /* starts from entry 0 (not NULL/0) so that a length shared by all entries
      stays a constant for the symbolic executor */
-  z.data = (uint8_t *)&c->arr->key[0][0];
+  z.data = c->arr->key[0];
   z.size = c->arr->klen[0];
   z.alloc = 0;
 
   for (i = 1; i < c->arr->n; i++) {
     if (i == c->pos) {
-      z.data = (uint8_t *)&c->arr->key[i][0];
+      z.data = c->arr->key[i];
       z.size = c->arr->klen[i];
     }
   }
@@ -221,13 +229,13 @@ vp_arr_value(const void *p) {
 
   VP_ASSERT(vp_arr_valid(p), "child value() called on an invalid iterator (REQUIRES: valid)");
 
-  z.data = (uint8_t *)&c->arr->val[0][0];
+  z.data = c->arr->val[0];
   z.size = c->arr->vlen[0];
   z.alloc = 0;
 
   for (i = 1; i < c->arr->n; i++) {
     if (i == c->pos) {
-      z.data = (uint8_t *)&c->arr->val[i][0];
+      z.data = c->arr->val[i];
       z.size = c->arr->vlen[i];
     }
   }
